@@ -96,10 +96,11 @@ Print Assumptions C16_marks.
    remove_transition: only current states are styled active, only the source of the last
    executed state-changing transition ([d_last]: the one whose state change started last) is
    styled previous, no other style occurs, and every top-level current state carries the active
-   style.  Guard [exit_inert]/[op_inert]: no on_exit callback fires a follow-up event (see
-   C16_styles_exit_refuted). *)
+   style.  Guard [exit_inert]/[op_inert]: no on_exit callback fires a follow-up event or regenerates
+   the graph (see C16_styles_exit_refuted, C16_styles_regen_refuted; callbacks that regenerate the
+   graph from on_enter are covered). *)
 Theorem C16_styles : forall m ops, let d := run m ops in
-  exit_inert m = true -> forallb (op_inert (m_acts m)) ops = true ->
+  exit_inert m = true -> forallb (op_inert (cbcfg m)) ops = true ->
   wf_kind (m_opts (d_m d)) (m_states (d_m d)) = true ->
   (forall n, In (ClassOf n 1) (view d) -> In n (d_cur d))
   /\ (forall n, In (ClassOf n 2) (view d) -> d_last d = Some n)
@@ -115,7 +116,7 @@ Definition rf_m : machine :=
   mkM [ Node 0 [65] None false [] [[108]] false NoInit []; Node 1 [66] None false [] [] false NoInit [];
         Node 3 [68] None false [] [] false NoInit [] ]
       [ mkT [103] None [0] (Some [1]) [] []; mkT [120] None [0] (Some [3]) [] [] ]
-      [0] (mkO false false false false false) [([108], [120])] 1.
+      [0] (mkO false false false false false) [([108], [120])] 1 [].
 Theorem C16_styles_exit_refuted :
   exists m ops, wf_kind (m_opts m) (m_states m) = true /\ wf_forest (m_states m) = true /\
     exit_inert m = false /\
@@ -127,6 +128,25 @@ Proof.
   - vm_compute. intros [H|[]]. discriminate.
 Qed.
 Print Assumptions C16_styles_exit_refuted.
+
+(* Likewise an on_exit callback of A that regenerates the graph (model.get_graph(force_new=True)) while
+   go (A -> B) is being executed: the fresh graph styles A active, the model ends in B
+   (replayed on /repo: probes/KF-C16-2.py). *)
+Definition rg_m : machine :=
+  mkM [ Node 0 [65] None false [] [[114]] false NoInit []; Node 1 [66] None false [] [] false NoInit [] ]
+      [ mkT [103] None [0] (Some [1]) [] [] ]
+      [0] (mkO false false false false false) [] 0 [[114]].
+Theorem C16_styles_regen_refuted :
+  exists m ops, wf_kind (m_opts m) (m_states m) = true /\ wf_forest (m_states m) = true /\
+    exit_inert m = false /\
+    exists n, In (ClassOf n 1) (view (run m ops)) /\ ~ In n (d_cur (run m ops)).
+Proof.
+  exists rg_m, [Ev [103]]. repeat split; try reflexivity.
+  exists [0]. split.
+  - vm_compute. auto 20.
+  - vm_compute. intros [H|[]]. discriminate.
+Qed.
+Print Assumptions C16_styles_regen_refuted.
 
 (* The region-of-interest view declares every active state, and for every transition leaving
    an active state (or one of its ancestors) it has the edge with the transition's label and
@@ -188,7 +208,7 @@ Definition ex_trans : list trans :=
   [ mkT [103; 111] None [0] (Some [1]) [([99; 48], true)] [([99; 49], false)];
     mkT [105] None [1; 10] None [] [];
     mkT [110] (Some [78]) [1; 10] (Some [1; 11]) [] [] ].
-Definition ex_m : machine := mkM ex_forest ex_trans [0] (mkO true false true true false) [] 0.
+Definition ex_m : machine := mkM ex_forest ex_trans [0] (mkO true false true true false) [] 0 [].
 Definition ex_ops : list op :=
   [ Ev [103; 111]; Ev [105]; Ev [110]; AddState (ex_leaf 3 [67] false);
     AddTrans (mkT [122] None [3] (Some [0]) [] []); RemTrans [105] None None ].
@@ -210,9 +230,9 @@ Definition nx_m : machine :=
   mkM [ Node 0 [65] None false [] [] false NoInit []; Node 1 [66] None false [[102]] [] false NoInit [];
         Node 2 [67] None false [] [] false NoInit [] ]
       [ mkT [103] None [0] (Some [1]) [] []; mkT [111] None [1] (Some [2]) [] [] ]
-      [0] (mkO false false false false false) [([102], [111])] 2.
+      [0] (mkO false false false false false) [([102], [111])] 2 [].
 Example C16_example_nested :
-  exit_inert nx_m = true /\ forallb (op_inert (m_acts nx_m)) [Ev [103]] = true
+  exit_inert nx_m = true /\ forallb (op_inert (cbcfg nx_m)) [Ev [103]] = true
   /\ d_cur (run nx_m [Ev [103]]) = [[2]] /\ d_last (run nx_m [Ev [103]]) = Some [1]
   /\ classes (view (run nx_m [Ev [103]])) = [([0], 0); ([1], 2); ([2], 1)].
 Proof. vm_compute. repeat split; reflexivity. Qed.
